@@ -230,7 +230,7 @@ func (c *Client) RecvHandshakeResp(d time.Duration) (*packet.HandshakeResponse, 
 func (c *Client) Handshake(req *packet.HandshakeRequest) (*packet.HandshakeResponse, error, error) {
 	b, _ := json.Marshal(req)
 	herr := c.Push(&packet.TransferPacket{PacketType: packet.Handshake, Payload: b})
-	resp, rerr := c.RecvHandshakeResp(2 * time.Second)
+	resp, rerr := c.RecvHandshakeResp(15 * time.Second)
 	return resp, herr, rerr
 }
 
